@@ -42,6 +42,7 @@ package criteria_mixing
 //@ func referenceCriterion
 //@   property C18
 //@   requires model.distinctCriteria(params.Criteria) && len(params.Criteria) > 0
+//@   requires model.validParams(*listener, params.MethodParameters) && model.coversAll(*listener, params.MethodParameters, params.Criteria)
 //@   ensures [is_existing_criterion] result != nil && exists j int :: 0 <= j && j < len(params.Criteria) && *result == params.Criteria[j]
 
 //@ func updateAlternatives
@@ -64,4 +65,4 @@ package criteria_mixing
 //@   ensures [values_preserved] len(current.Criteria) >= 2 ==>
 //@                (forall i int :: 0 <= i && i < len(current.ConsideredAlternatives) ==> model.extendedBy(result.DMP.ConsideredAlternatives[i], current.ConsideredAlternatives[i], result.DMP.Criteria[len(current.Criteria)].Id))
 //@             && (forall i int :: 0 <= i && i < len(current.NotConsideredAlternatives) ==> model.extendedBy(result.DMP.NotConsideredAlternatives[i], current.NotConsideredAlternatives[i], result.DMP.Criteria[len(current.Criteria)].Id))
-//@   ensures [parameters_extended] len(current.Criteria) >= 2 ==> model.coversAll(*listener, result.DMP.MethodParameters, result.DMP.Criteria)
+//@   ensures [parameters_extended] len(current.Criteria) >= 2 ==> model.coversAll(*listener, result.DMP.MethodParameters, result.DMP.Criteria) && model.validParams(*listener, result.DMP.MethodParameters)
